@@ -64,6 +64,33 @@ def _spec_clauses(known, prop, fails, by_id):
             f["spec_clauses"] = sorted(cls)
 
 
+def _replay_spec_behaviours(recs, n, seed):
+    """Sample plain recorded runs (one fresh simulate() with events), let TLC generate the run of
+    the specification for the same model (Gen_SpecRun) and compare the two event sequences
+    (phase names and complete states), the return value and the final logs."""
+    import random
+
+    cand = [c for c in recs
+            if c.get("spec", {}).get("kind") == "simulate" and not c["spec"].get("light")
+            and len(c["runs"]) == 1 and c["runs"][0]["op"] == "simulate" and c["runs"][0]["ev"]
+            and c["runs"][0]["ret"] in ("ok", "exc:ValueError") and "unit" not in c["runs"][0]["opts"]]
+    if not cand:
+        return {"cases": 0, "events": 0, "mismatch_cases": []}
+    random.Random(seed + 77).shuffle(cand)
+    cand = cand[:n]
+    srs = runner.spec_runs([(c["cfg"], c["runs"][0]["opts"]) for c in cand])
+    bad, nev = [], 0
+    for c, sc in zip(cand, srs):
+        cr, sr = c["runs"][0], sc["runs"][0]
+        nev += len(sr["ev"])
+        same = ([(e["ph"], e["st"]) for e in sr["ev"]] == [(e["ph"], e["st"]) for e in cr["ev"]]
+                and sr["ret"] == cr["ret"]
+                and (cr["ret"] != "ok" or sr["final"]["lg"] == cr["final"]["lg"]))
+        if not same:
+            bad.append(c["cfg"]["id"])
+    return {"cases": len(cand), "events": nev, "mismatch_cases": bad}
+
+
 def main(argv=None):
     ap = argparse.ArgumentParser()
     ap.add_argument("prop")
@@ -92,6 +119,13 @@ def main(argv=None):
     by_id = {c["cfg"]["id"]: c for c in recs}
     nontrivial = plans.nontrivial(prop, recs)
     _spec_clauses(known, prop, res["fails"], by_id)
+    # the other direction: behaviours generated from the specification (RunRecordF, exported by
+    # TLC) against what the code did - compared event by event in Python, independently of the
+    # trace specification
+    rep = _replay_spec_behaviours(recs, 60 if tier == "quick" else 400, seed)
+    cov["spec_behaviours_replayed"] = rep
+    for cid in rep["mismatch_cases"]:
+        res["fails"].append({"clause": "L2.spec-behaviour", "case": cid, "run": 1, "pos": 0})
     for f in res["fails"]:
         cl = f["clause"]
         cov["clauses_failed"][cl] = cov["clauses_failed"].get(cl, 0) + 1
